@@ -8,9 +8,12 @@ Property theorems only.  `Model/C14.lean` mirrors `position_to_offset`, `offset_
 (`Impl`); `Spec` is the editor: the document as UTF-16 code units, LSP lines (`\n`, `\r\n`, `\r`),
 a change replaces the unit range `[start, end)`.
 
-Guard of the agreement theorems: the buffers addressed by ranged changes use `\n` / `\r\n` line
-ends (`Spec.lfOrCrlf`, `Spec.lfChanges`, `Spec.lfHistory`).  It is necessary:
-`c14_counterexample_lone_cr` (known finding C14-lone-cr).
+Guards of the agreement theorems (`Spec.lfOrCrlf`, `Spec.lfChanges`, `Spec.lfEvent`,
+`Spec.lfHistory`), both necessary:
+* the buffers addressed by ranged changes use `\n` / `\r\n` line ends —
+  `c14_counterexample_lone_cr` (known finding C14-lone-cr);
+* no DELETED file event for the document while the editor has it open —
+  `c14_counterexample_deleted_while_open` (known finding C14-deleted-event-drops-open-document).
 -/
 namespace TrustVerif.C14
 
@@ -44,11 +47,15 @@ theorem c14_changes (s : List Char) (cs : List Impl.Change) (us' : List Nat)
   applyContentChanges_spec cs s us' hlf h
 
 /-- **Every history (clause "for every document and every sequence of incremental or full change
-notifications").**  For every sequence of `didOpen` / `didChange` / `didClose` notifications an
-editor can produce (`Spec.run … = some ed`), starting from an untracked document, the server's
-`Document` agrees with the editor's copy after the whole sequence (and after every notification,
-`c14_history_every_step`): same text, same version, open;
-closed on the server when the editor has closed it.  Induction over the history, no bound. -/
+notifications").**  The event alphabet is `didOpen` / `didChange` / `didClose` / `didSave` and
+what happens to the document's file behind the editor's back: `workspace/didChangeWatchedFiles`
+CREATED / CHANGED / DELETED for its URI and workspace indexing passes, each with an arbitrary
+disk text.  For every such sequence an editor can produce (`Spec.run … = some ed`), starting from
+an untracked document, the server's `Document` agrees with the editor's copy after the whole
+sequence (and after every event, `c14_history_every_step`): same text, same version, open, and
+the analysis database reads that text — an open document ignores the disk (the `is_open` guard of
+`index_document_impl`), a closed one takes the disk text; not open on the server when the editor
+has closed it.  Induction over the history, no bound. -/
 theorem c14_history (evs : List Impl.Event) (ed : Option Spec.Doc)
     (hlf : Spec.lfHistory none (evs.map encodeEvent) = true)
     (h : Spec.run none (evs.map encodeEvent) = some ed) :
@@ -65,6 +72,14 @@ theorem c14_history_every_step (a b : List Impl.Event) (ed : Option Spec.Doc)
   rw [List.map_append] at hlf h
   obtain ⟨ed1, h1, _⟩ := Spec.run_prefix _ _ none ed h
   exact ⟨ed1, h1, c14_history a ed1 (Spec.lfHistory_prefix _ _ none hlf) h1⟩
+
+/-- **The analysed text is the document text, always.**  For every event sequence whatsoever (no
+guard, positions valid or not, disk events at any time): whenever the server tracks the document,
+the text the analysis database holds for it (`project.set_source_text`) is `Document.content` —
+so every answer is computed from the text its positions are mapped through. -/
+theorem c14_analysed_text (evs : List Impl.Event) (d : Impl.Doc) (h : Impl.run none evs = some d) :
+    d.analysed = d.text :=
+  run_analysed evs none (by intro d hd; cases hd) d h
 
 /-- The same from any agreeing pair of states (so it composes along a session). -/
 theorem c14_history_from (evs : List Impl.Event) (srv : Option Impl.Doc) (ed ed' : Option Spec.Doc)
@@ -142,6 +157,17 @@ theorem c14_counterexample_lone_cr :
       some (encode16 ['a', '\r', 'X', 'b']) ∧
     Spec.lfOrCrlf (encode16 ['a', '\r', 'b']) = false := by decide
 
+/-- **The second guard is necessary (known finding C14-deleted-event-drops-open-document).**
+The editor opens a document and edits it; its file is deleted on disk; the editor still holds the
+buffer and keeps editing.  The server drops the open document on the DELETED event
+(`remove_document` has no `is_open` guard) and ignores every later change. -/
+theorem c14_counterexample_deleted_while_open :
+    let evs : List Impl.Event :=
+      [.didOpen 1 ['x'], .watchedDeleted, .didChange 2 [.range 0 1 0 1 ['y']]]
+    Impl.run none evs = none ∧
+    Spec.run none (evs.map encodeEvent) = some (some { units := encode16 ['x', 'y'], version := 2 }) ∧
+    Spec.lfHistory none (evs.map encodeEvent) = false := by decide
+
 /-! ## Non-vacuity: the hypotheses are satisfiable on the interesting inputs -/
 
 /-- `c14_apply` on the witness of the repaired defect: `😀x`, insert `y` at (0,2). -/
@@ -174,6 +200,30 @@ example :
        .didClose]
     Spec.lfHistory none (evs.map encodeEvent) = true ∧
     Spec.run none (evs.map encodeEvent) = some none ∧
-    Impl.run none evs = some { text := ['a', '😀', 'é'], version := 2, isOpen := false } := by decide
+    Impl.run none evs =
+      some { text := ['a', '😀', 'é'], version := 2, isOpen := false, analysed := ['a', '😀', 'é'] } := by
+  decide
+
+/-- `c14_history` over the extended alphabet: the file is indexed, opened, edited (unsaved),
+rewritten on disk behind the editor's back (CHANGED), saved, closed, rewritten again (the closed
+document takes the disk text), deleted, re-created and re-opened. -/
+example :
+    let evs : List Impl.Event :=
+      [.watchedChanged (some ['o', 'l', 'd']),
+       .didOpen 1 ['o', 'l', 'd'],
+       .didChange 2 [.range 0 0 0 3 ['n', 'e', 'w']],
+       .watchedChanged (some ['d', 'i', 's', 'k']),
+       .didSave,
+       .watchedChanged (some ['n', 'e', 'w'])]
+    Spec.lfHistory none (evs.map encodeEvent) = true ∧
+    Spec.run none (evs.map encodeEvent) = some (some { units := encode16 ['n', 'e', 'w'], version := 2 }) ∧
+    Impl.run none evs =
+      some { text := ['n', 'e', 'w'], version := 2, isOpen := true, analysed := ['n', 'e', 'w'] } ∧
+    Impl.run none (evs ++ [.didClose, .watchedChanged (some ['x']), .watchedChanged none]) =
+      some { text := ['x'], version := 0, isOpen := false, analysed := ['x'] } ∧
+    Spec.lfHistory none ((evs ++ ([.didClose, .watchedDeleted, .watchedChanged (some ['y']),
+      .didOpen 7 ['z']] : List Impl.Event)).map encodeEvent) = true ∧
+    Impl.run none (evs ++ [.didClose, .watchedDeleted, .watchedChanged (some ['y']), .didOpen 7 ['z']]) =
+      some { text := ['z'], version := 7, isOpen := true, analysed := ['z'] } := by decide
 
 end TrustVerif.C14
